@@ -198,7 +198,7 @@ gd_nothrow
           return;
         case GD_UINT32:
           for (i = 0; i < n; i++)
-            ((uint32_t *)data_out)[i] = (uint32_t)((uint16_t *)data_in)[i];
+            ((uint32_t *)data_out)[i] = (uint32_t)((int16_t *)data_in)[i];
           return;
         case GD_INT64:
           for (i = 0; i < n; i++)
